@@ -268,15 +268,26 @@ sys.exit(1 if bad else 0)
 
 
 def main(tier, seed):
-    rep = Report(PID, tier, seed, "exploration")
-    rep.explanation = "BOUNDED only: run-time contract of BaseGeo.copy on all classes x parent x style state x keyword overrides, collection trees to depth 3; nothing proved"
-    rep.assume("copy.deepcopy cannot be executed symbolically; no heap verifier installed: not a proof")
+    rep = Report(PID, tier, seed, "other")
+    rep.explanation = ("obligations on the real code of BaseGeo.copy (AST) and on the class registry (no copy hooks, no shared class-level mutable state) that, with the "
+                       "ASSUMED contract of copy.deepcopy, give parentless + independent (checks/c18_struct.py); BOUNDED: run-time contract of BaseGeo.copy on all classes x parent x "
+                       "style state x keyword overrides, collection trees to depth 3")
+    rep.assume("copy.deepcopy itself is not verified (C implementation / interpreter): its contract is assumed; equality of state and of the field after copying only in the bounded stand-in")
+    from checks import c18_struct
+
+    sfails = c18_struct.run(rep)
     rep.assume("meta-argument: disjoint mutable reach implies that no later mutation of either object is visible to the other; a fixed set of mutations is exercised in addition")
     n, d, bad = run_all(seed, tier)
     rep.standin("run-time contract of copy(): equal state, no parent, disjoint mutable reach, original tree untouched, kwargs only on the copy, same field, later mutations invisible",
                 "13 classes x {no parent, parent} x 5 style states (incl. a user model3d trace) x 4 keyword sets; collection tree depth 3", n, d,
                 "every combination once; distinct = (class, parent, style state, kwargs)", [dict(cls="Collection", parent=True, style="kwargs-pending", kwargs={"position": [7, 8, 9]})],
                 failures=len(bad), exhaustive=True)
-    for case, msgs in bad[:3]:
-        rep.violation(f"standin.copy-contract[{case['cls']}]", {"case": case, "native_result": msgs, "script": REPLAY.format(seed=seed)})
+    for f in sfails:
+        if bad:
+            rep.violation(f["name"], {"why": f["why"], "case": bad[0][0], "native_result": bad[0][1], "script": REPLAY.format(seed=seed)})
+        else:
+            rep.violation(f["name"], {"why": f["why"], "solver_output": f["why"]}, found_input=False)
+    if not sfails:
+        for case, msgs in bad[:3]:
+            rep.violation(f"standin.copy-contract[{case['cls']}]", {"case": case, "native_result": msgs, "script": REPLAY.format(seed=seed)})
     return rep.finish()
